@@ -122,12 +122,29 @@ class Run:
                 raise ValueError(f'bad scenario line {ln!r}')
         self.meths = meths
         declared = {o for o, _ in self.objdecl}
-        for ops in self.react_ops.values():
+        classes = {d[0] for d in self.decls}
+        if any(c not in classes for _, c in self.objdecl) or \
+                any(b not in classes for d in self.decls for b in d[2]):
+            raise ValueError('object or class of an undeclared class')
+        for ops in list(self.react_ops.values()) + [self.ops]:
             for t in ops:
-                refs = [x for x in (t[2:3] if t[0] == 'add' else split_list(t[2]) if t[0] == 'create' else
-                                    t[1:2] if t[0] == 'addproc' else []) if x.isdigit()]
-                if any(int(x) not in declared for x in refs):
-                    raise ValueError(f'reaction refers to an undeclared object: {t}')
+                refs, crefs = [], []
+                if t[0] == 'add':
+                    refs = t[2:3]
+                elif t[0] == 'create' and len(t) > 2:
+                    refs = split_list(t[2])
+                elif t[0] in ('addproc', 'forget'):
+                    refs = t[1:2]
+                elif t[0] == 'remove':
+                    crefs = t[2:3]
+                elif t[0] == 'rmproc':
+                    crefs = t[1:2]
+                elif t[0] == 'via':
+                    refs = t[1:2] + (t[3:4] if t[2] in ('add', 'cset', 'pset') else [])
+                    crefs = t[3:4] if t[2] not in ('add', 'cset', 'pset') else []
+                if any(x.isdigit() and int(x) not in declared for x in refs) or \
+                        any(x.isdigit() and int(x) not in classes for x in crefs):
+                    raise ValueError(f'operation refers to an undeclared object or class: {t}')
 
     # ---------------------------------------------------------------- classes and objects
     def build(self):
